@@ -17,7 +17,7 @@ ASSUMPTIONS = [
     "after a failed job was re-submitted the reported overall status is not asserted (the property is silent)",
     "an adopted (already running) job ends according to its own exit code whatever its ancestors did",
 ]
-MIN_CLASSES = {"quick": {"two-stages": 500, "dependent-of-failure": 800, "failing-job": 2500}, "thorough": {"dependent-of-failure": 8000}}
+MIN_CLASSES = {"quick": {"two-stages": 300, "dependent-of-failure": 800, "failing-job": 2500}, "thorough": {"dependent-of-failure": 8000}}
 
 
 def nontrivial(case, H, labels):
